@@ -6,6 +6,7 @@ import (
 	"go/token"
 	"go/types"
 	"golang.org/x/tools/go/cfg"
+	"sort"
 	"strings"
 
 	"golang.org/x/tools/go/ssa"
@@ -18,6 +19,7 @@ func init() {
 const pkgPaths = "core/validators/paths"
 
 func checkC15(c *Ctx, r *Report) {
+	defer checkEndpointKeysAgree(c, r, "C15.b")
 	defer checkContainerFields(c, r, "C15.e")
 	defer checkProcessWideState(c, r, "C15.e")
 	w := c.W
@@ -844,4 +846,62 @@ func findConcat(e ast.Expr) *ast.BinaryExpr {
 		return true
 	})
 	return out
+}
+
+// checkEndpointKeysAgree: every access to a trie node's endpoint table - registration, the
+// duplicate test, the walks that collect endpoints of a verb - derives its key the same way.
+// A key that is normalised (case-folded, trimmed) where endpoints are registered but used as
+// written where they are looked up makes whole groups of routes invisible to the walks.
+func checkEndpointKeysAgree(c *Ctx, r *Report, clause string) {
+	w := c.W
+	tn := w.lookupType("core/validators/paths", "trieNode")
+	fld := fieldOf(tn, "endpoint")
+	if fld == nil {
+		r.add(clause, "sibling", "trie-endpoint-keys", "", nil, []string{"core/validators/paths:0"}, "trieNode.endpoint not found")
+		return
+	}
+	type acc struct {
+		pos   string
+		calls string
+	}
+	var all []acc
+	for _, fn := range w.SSAFuncs {
+		if fn.Pkg == nil || short(fn.Pkg.Pkg.Path()) != "core/validators/paths" {
+			continue
+		}
+		allInstrsLocal(fn, false, func(_ *ssa.Function, _ *ssa.BasicBlock, _ int, ins ssa.Instruction) {
+			var m, k ssa.Value
+			switch x := ins.(type) {
+			case *ssa.MapUpdate:
+				m, k = x.Map, x.Key
+			case *ssa.Lookup:
+				m, k = x.X, x.Index
+			default:
+				return
+			}
+			if !sliceOf(m).hasField(fld) {
+				return
+			}
+			var cs []string
+			for cl := range sliceOf(k).Calls {
+				if !isPlumbingCall(cl) && !strings.HasPrefix(cl, "func:") {
+					cs = append(cs, cl)
+				}
+			}
+			sort.Strings(cs)
+			all = append(all, acc{w.pos(ins.Pos()), strings.Join(cs, ",")})
+		})
+	}
+	viol := ""
+	var sites []string
+	for i, a := range all {
+		sites = append(sites, a.pos)
+		if i > 0 && a.calls != all[0].calls {
+			viol = fmt.Sprintf("%s: this access to trieNode.endpoint derives its key through [%s], the access at %s through [%s]: endpoints registered under one spelling of the verb are not found under the other, and the overlaps between those routes go unreported", a.pos, a.calls, all[0].pos, all[0].calls)
+		}
+	}
+	if len(all) < 3 {
+		viol = fmt.Sprintf("expected the registration, the duplicate test and the collecting walk to access trieNode.endpoint, found %d accesses", len(all))
+	}
+	r.add(clause, "sibling", "trie-endpoint-keys", "all accesses to a trie node's endpoint table key it the same way", []string{"core/validators/paths.trieNode.endpoint"}, sites, viol)
 }
